@@ -174,7 +174,11 @@ pub fn run(a: &Args) {
                     terms.sort(); terms.dedup();
                     let head = format!("(lrt {} (built {} {} {} (", g.sx(), b.g2.sx(), b.table_sx, b.nconf);
                     let mut runs: Vec<String> = vec![];
-                    for (types, text) in texts(&mut rng, &g, &terms, a.thorough) {
+                    let mut all = texts(&mut rng, &g, &terms, a.thorough);
+                    // all short strings over the grammar's terminals: an endless reduction cycle of a table with resolved
+                    // conflicts is reached by some short input if it is reachable at all
+                    for s in c03::inputs(&mut rng, &g, false) { if s.len() <= 5 { let t = alpha::render(&s); all.push((s, t)); } }
+                    for (types, text) in all {
                         let types = token_types(&text).unwrap_or(types);
                         let (ty, tx) = (types.clone(), text.clone());
                         let hang = format!("({} 1 hang)", crate::sx::nums(&types));
